@@ -231,6 +231,11 @@ class RefRun:
             args = [_real_cast(x) if self.const[a] else x for x, a in zip(args, st["args"])]
         res = od.ref(args, st.get("p", {}))
         res = np.asarray(res)
+        if self.cplx and od.view and any(self.const[a] for a in st["args"]) and res.size > 0 \
+                and not any(np.shares_memory(res, x) for x in args):
+            # a view-capable op (einsum) that computed a new array: like any computing op, it reads the real part of
+            # its constant operands
+            res = np.asarray(od.ref([_real_cast(x) if self.const[a] else x for x, a in zip(args, st["args"])], st.get("p", {})))
         if od.view and not st["op"].startswith("atleast_") and any(res is a for a in args):
             # NumPy handed back the operand itself (np.squeeze with nothing to squeeze); a Tensor result is
             # always a distinct object, so model it as a distinct view.  (mg.atleast_kd documents
